@@ -190,7 +190,7 @@ func gen02(tier string, emit func(Case)) {
 			emitTree(gen.Prefix(p, sub(in, 1)), fmt.Sprintf("pre%s(%s)", p, in))
 		}
 	}
-	if thorough {
+	{
 		// depth 2 with one non-default atom at each leaf position
 		for _, outer := range gen.BinOps {
 			for _, in := range gen.BinOps {
@@ -214,6 +214,8 @@ func gen02(tier string, emit func(Case)) {
 				}
 			}
 		}
+	}
+	if thorough {
 		// depth 3: left and right spines over one operator per precedence level
 		lv := []string{"||", "&&", "~", "==", "<", "+", "juxt"}
 		for _, a := range lv {
@@ -368,7 +370,7 @@ func init() {
 	engine.Register(engine.Spec[Case]{
 		ID:    "C02",
 		Level: "exploration",
-		Rule: "complete enumeration of expression trees (all atoms x all operators at depth 1; every (outer, left, right) operator triple at depth 2; thorough adds every atom at every leaf and depth-3 spines over one operator per precedence level), each printed by an independent printer with minimal and with full parentheses in 12 expression contexts under 3 layouts (single spaces, one token per line, a comment at every documented placeholder), plus a literal table and all statement/declaration derivations within 2 (quick) / 3 (thorough) deviations from each kind's default form; oracle: parse(print(t)) structurally equals t; non-trivial = every case (each has >=1 operator or statement); distinct = distinct source text",
+		Rule: "complete enumeration of expression trees (all atoms x all operators at depth 1; every (outer, left, right) operator triple at depth 2; every atom at every leaf of every depth-2 shape; thorough adds depth-3 spines over one operator per precedence level), each printed by an independent printer with minimal and with full parentheses in 12 expression contexts under 3 layouts (single spaces, one token per line, a comment at every documented placeholder), plus a literal table and all statement/declaration derivations within 2 (quick) / 3 (thorough) deviations from each kind's default form; oracle: parse(print(t)) structurally equals t; non-trivial = every case (each has >=1 operator or statement); distinct = distinct source text",
 		Gen:  gen02,
 		Key:  func(c Case) string { return c.Src },
 		Run:  run,
